@@ -453,11 +453,21 @@ def parseLine(raw, eols=(CRLF, LF, CR ), kind="event line"):
 
     Raise error if eol not found before MAX_LINE_SIZE
     """
+    skip = False  # True when line ended with CR as last byte so far of raw
     while True:
-        for eol in eols:  # loop over eols unless found
-            index = raw.find(eol)  # not found index == -1
-            if index >= 0:
-                break
+        if skip and raw:  # LF arriving right after that CR belongs to same eol
+            if raw[0:1] == LF:
+                del raw[0]
+            skip = False
+
+        index = -1
+        eol = b''
+        for each in eols:  # earliest eol wins, at same index longest eol wins
+            i = raw.find(each)  # not found i == -1
+            if i >= 0 and (index < 0 or i < index or
+                           (i == index and len(each) > len(eol))):
+                index = i
+                eol = each
 
         if index < 0:  # not found
             if len(raw) > MAX_LINE_SIZE:
@@ -471,6 +481,8 @@ def parseLine(raw, eols=(CRLF, LF, CR ), kind="event line"):
 
         line = raw[:index]
         index += len(eol)  # strip eol
+        if eol == CR and CRLF in eols and index == len(raw):
+            skip = True  # CRLF may be split across receives
         del raw[:index] # remove used bytes
         (yield line)
     return
